@@ -1,5 +1,5 @@
 #!/bin/bash
-# confirm every delivered seeded mutant not yet recorded (first wave: Cxx-out, second: Cxxb-out, third: Cxxc-out)
+# confirm every delivered seeded mutant not yet recorded (first wave: Cxx-out, second: Cxxb-out, third: Cxxc-out, fourth: Cxxd-out)
 cd /verif
 for d in /tmp/seed/C*-out/mutant-*; do
   [ -f "$d/patch.diff" ] || continue
@@ -8,6 +8,7 @@ for d in /tmp/seed/C*-out/mutant-*; do
   case "$p" in
     *b) prop=${p%b}; id="$prop-w2m$m" ;;
     *c) prop=${p%c}; id="$prop-w3m$m" ;;
+    *d) prop=${p%d}; id="$prop-w4m$m" ;;
     *)  prop=$p; id="$p-m$m" ;;
   esac
   [ -f "seeded/$id/meta.json" ] && continue
